@@ -254,7 +254,8 @@ def _locate_droplets_in_mask_cylindrical_single(
 
     # determine position from binary image and scale it to real space
     pos = ndimage.center_of_mass(mask, labels, index=indices)
-    pos = grid.transform(pos, "cell", "cartesian")
+    # the center of the cell with index `i` has the cell coordinate `i + 0.5`
+    pos = grid.transform(np.asarray(pos) + 0.5, "cell", "cartesian")
 
     # determine volume from binary image and scale it to real space
     vol_r, dz = grid.cell_volume_data
@@ -305,13 +306,16 @@ def _locate_droplets_in_mask_cylindrical(mask: ScalarField) -> Emulsion:
         else:
             _logger.info("Found %d droplet candidates.", len(candidates))
 
-            # keep droplets that are inside the central area
+            # keep droplets that are inside the central area. The interval is half-open
+            # (up to round-off errors), so a droplet centered exactly on the periodic
+            # boundary, whose images lie at `z_min` and `z_max`, is only kept once
+            tol = 1e-8 * grid.discretization[1]
             droplets = Emulsion()
             for droplet in candidates:
                 # correct for the additional padding of the array
                 droplet.position[2] -= grid.length
                 # check whether the droplet lies in the original box
-                if z_min <= droplet.position[2] <= z_max:
+                if z_min - tol <= droplet.position[2] < z_max - tol:
                     droplets.append(droplet)
 
             _logger.info("Kept %d central droplets.", len(droplets))
